@@ -66,7 +66,9 @@ def odd_macro_names():
         m = impl.load()
         parms = m.parameters.Parameters('en')
         pr = m.parser.Parser(parms, m.tex2txt.get_packages('*', parms.package_modules), read_macros=None)
-        taken = set(pr.the_macros) | set(ACCENTS) | set(parms.accent_macros) | {'\\' + k for k in pr.the_environments}
+        # (also left out: the names the generators use as UNDECLARED macros)
+        taken = (set(pr.the_macros) | set(ACCENTS) | set(parms.accent_macros) | {'\\' + k for k in pr.the_environments}
+                 | set(UNKNOWN_MACROS) | {'\\zzz', '\\foo', '\\mycmd', '\\relax', '\\hl', '\\hm', '\\hk', '\\dd', '\\inc', '\\incb', '\\qq', '\\sw', '\\rx'})
         kws = ['def', 'gdef', 'begin', 'end', 'item', 'verb', 'newcommand', 'renewcommand', 'LTinput', 'par', 'text', 'mbox',
                'footnote', 'usepackage', 'documentclass', 'label', 'cite', 'ref']
         cand = set()
